@@ -1165,6 +1165,28 @@ impl CodeGenerator {
                             Some(&live),
                         );
 
+                        // With aggregation-in-loop the Aggregate node was stripped from
+                        // the recursive body, so its rows are still the un-projected body
+                        // rows. Project them onto the columns the aggregate emits (the
+                        // group-by columns, then the aggregated column): that is the shape
+                        // of the rule head, which the base rows have and which the next
+                        // iteration reads back as the recursive relation.
+                        let recursive_result = if let Some((ref group_by, agg_col, _)) = agg_in_loop
+                        {
+                            let projection: Vec<usize> =
+                                group_by.iter().copied().chain([agg_col]).collect();
+                            recursive_result.map(move |tuple| {
+                                Tuple::new(
+                                    projection
+                                        .iter()
+                                        .map(|&i| tuple.get(i).cloned().unwrap_or(Value::Null))
+                                        .collect(),
+                                )
+                            })
+                        } else {
+                            recursive_result
+                        };
+
                         // Enter base case into iterative scope
                         let base_in_scope = base_collection.enter(inner);
 
@@ -1172,16 +1194,20 @@ impl CodeGenerator {
                         let combined = base_in_scope.concat(recursive_result);
 
                         // Apply deduplication strategy based on aggregation mode
-                        let next = if let Some((ref group_by, agg_col, is_min)) = agg_in_loop {
+                        let next = if let Some((ref group_by, _, is_min)) = agg_in_loop {
                             // Min/Max aggregation-in-loop: instead of distinct(), apply
                             // reduce() with min/max logic. This prunes non-optimal paths
                             // at each iteration, reducing intermediate data volume.
-                            let group_by = group_by.clone();
+                            //
+                            // Both the base rows and the (projected) recursive rows have
+                            // the shape of the rule head here: the group-by columns first,
+                            // the aggregated column right after them.
+                            let num_groups = group_by.len();
+                            let agg_col = num_groups;
                             combined
                                 .map(move |tuple| {
-                                    let key: Vec<Value> = group_by
-                                        .iter()
-                                        .map(|&i| tuple.get(i).cloned().unwrap_or(Value::Null))
+                                    let key: Vec<Value> = (0..num_groups)
+                                        .map(|i| tuple.get(i).cloned().unwrap_or(Value::Null))
                                         .collect();
                                     (Tuple::new(key), tuple)
                                 })
@@ -1216,6 +1242,15 @@ impl CodeGenerator {
                         // Leave scope with final result
                         next.leave()
                     });
+
+                    // The min/max reduction retracts a group's previous best row whenever
+                    // a later iteration improves it, so the loop's output holds those
+                    // rows with a net weight of zero: cancel them before capturing.
+                    let result = if agg_in_loop.is_some() {
+                        result.consolidate()
+                    } else {
+                        result
+                    };
 
                     // Capture results
                     result
